@@ -24,7 +24,7 @@ RULE = (
     "even when pictures are fields); per path of encoder->serialiser->decoder z3 proves the decoded picture numbers; verdict, picture "
     "count, video parameters and coding mode are compared"
 )
-BOUNDS = {"quick": "16 configurations x {explicit, first-explicit-then-AUTO} numbering, 2-3 pictures", "thorough": "28 configurations, 2-4 pictures"}
+BOUNDS = {"quick": "28 configurations x {explicit, first-explicit-then-AUTO} numbering, 2 pictures", "thorough": "the same 28 configurations"}
 OUTSIDE = "configurations outside the catalogue; picture content is concrete here (see C04, C09, C14)"
 ASSUMPTIONS = ["when pictures are fields the first picture number is even (documented precondition of the encoder API)"]
 STUBS = ["SymFile", "bytearray/bitarray stand-ins"]
@@ -57,8 +57,6 @@ def _configs(tier):
         dict(name="ld-pq-uhd-primaries", profile=LD, picture_bytes=20, video_parameters=dict(transfer_function_index=4, color_primaries_index=3)),
         dict(name="ld-fields-frag", profile=LD, picture_bytes=24, fragment_slice_count=1, picture_coding_mode=P.pictures_are_fields),
     ]
-    if tier == "quick":
-        return q
     more = [
         dict(name="hq-odd-size", video_parameters=dict(frame_width=6, frame_height=2, clean_width=6, clean_height=2), slices_x=1, lossless=True, picture_bytes=None),
         dict(name="hq-interlaced-frames", video_parameters=dict(source_sampling=S.interlaced)),
